@@ -835,7 +835,8 @@ def rule_diag_flag(prog):
                         detail = "the tested value has type %s: `Some(None)` (a client that sent `textDocument` without `publishDiagnostics`) counts as support" % t
     out.add("server::LanguageServer::initialize", "diagnostics support = client announced textDocument.publishDiagnostics", ok, c.loc(ini[0]["sp"]), detail)
     ok = False
-    for call in hir.nodes(run[0]["body"], "Call"):
+    # (the broker may be started by a helper method of the server: `self.spawn_broker(docrx, iotx.clone())`)
+    for call in [x_ for x_ in hir.nodes_deep(prog, run[0]["body"], 2, crate=c) if x_.get("k") == "Call"]:
         bf = roles.broker_fn(prog)
         if bf is not None and (hir.callee(call) or "") == bf["p"]:
             ok = any((place(a) or "").endswith(".client_details.diagnostics") for a in call["args"])
